@@ -33,6 +33,8 @@ EXPLANATION = (
   ' (LOOP-break) no loop over the items of a collection is left by a branch that does nothing but `break` on a test about the item (end-of-input sentinels, flags set in the loop body and searches whose variable is read afterwards excepted): an item that is to be skipped does not end the processing of the items after it;'
   " (ABSENT-style) the region-background predicate, interpreted on a region that specifies no style, does not conclude that the region paints nothing (the document's initial values are applied only in the snapshot);"
   + common.SHARED_CLAUSES['truthy']
+  + " (FIN-cacheskip) ISD.from_model, interpreted with and without a SignificantTimes object (_process_element replaced by a recorder), processes the same regions for every offset inside a cached document's content interval - offsets after the last significant time included - and skips a document only outside that interval;"
+  + " (COVER-regions) ISD.significant_times, interpreted with the per-region clone and the collector replaced by recorders, gives every region of the document - whatever it specifies, display=none included - its own single-region document and lets the collector visit that region and the body;"
 )
 RULE_TEXT = "per mutator call / mutating call argument, per copy_to variant x field, per early return, per module-level store"
 UNDECIDED = ["equality of cached and uncached results over all documents and times", "equality of repeated calls as values",
@@ -185,6 +187,10 @@ def check_no_shared_state(ctx, fs):
 
 
 def run(ctx):
+  from ..rules import isdrules as _isdr3
+  ctx.floor("COVER-regions", "sample documents decided", _isdr3.check_region_docs_cover(ctx), 3)
+  from ..rules import isdrules as _isdr2
+  ctx.floor("FIN-cacheskip", "(cache, offset) samples decided", _isdr2.check_cached_snapshot_calls(ctx), 10)
   common.check_shared_helpers(ctx, truthy_modules=["ttconv.model", "ttconv.isd"])
   ix = ctx.ix
   prov, ps, fs = build_provenance(ctx)
